@@ -2,7 +2,7 @@
 import ast
 
 from ..loader import AnalysisError, norm_stmt
-from ..small import cond_defaults
+from ..small import UnrollError, cond_defaults, return_cases
 
 KB = "krige/base.py"
 BASE = "covmodel/base.py"
@@ -118,22 +118,37 @@ def pinv(ctx, rule="R06.3"):
     ok = isinstance(first, ast.If) and ast.unparse(first.test) == "val not in P_INV and (not callable(val))" and any(isinstance(x, ast.Raise) for x in first.body)
     ctx.check(ok, rule, KB + "::Krige.pseudo_inv_type@set", "the type must be a registry key or a callable", "validate")
     inv = cm.methods["_inv"]
-    body = [norm_stmt(s) for s in inv.body if not (isinstance(s, ast.Expr) and isinstance(s.value, ast.Constant))]
-    ok = body == ["if self.pseudo_inv: if callable(self.pseudo_inv_type): return self.pseudo_inv_type(mat) return P_INV[self.pseudo_inv_type](mat)", "return spl.inv(mat)"]
-    if not ok:
-        # structural fallback: three returns under the right guards
-        rets = sorted((ast.unparse(r.value) for r in ast.walk(inv) if isinstance(r, ast.Return)))
-        ok = rets == sorted(["self.pseudo_inv_type(mat)", "P_INV[self.pseudo_inv_type](mat)", "spl.inv(mat)"])
+    try:
+        table = return_cases(inv)
+    except UnrollError as e:
+        raise AnalysisError("Krige._inv is no longer a decision table: %s" % e)
+    want = [(frozenset(["self.pseudo_inv", "callable(self.pseudo_inv_type)"]), "self.pseudo_inv_type(mat)"),
+            (frozenset(["self.pseudo_inv", "not callable(self.pseudo_inv_type)"]), "P_INV[self.pseudo_inv_type](mat)"),
+            (frozenset(["not self.pseudo_inv"]), "spl.inv(mat)")]
+    ok = sorted(table, key=lambda x: x[1]) == sorted(want, key=lambda x: x[1])
     ctx.check(ok, rule, KB + "::Krige._inv", "callable -> call it; registry key -> registry routine; pseudo_inv off -> plain inverse (exhaustive)", "inv")
     ctx.check(mod.imports.get("spl") == "scipy.linalg", rule, KB, "spl is scipy.linalg", "spl")
 
 
 def run(ctx):
+    from .C14 import no_shared_fields
+
+    # exactness is stated for the conditioning data the matrix was built from: they must be the object's own copy (shared with C05)
+    no_shared_fields(ctx, "R06.10", "krige/base.py", "Krige", {"_cond_pos", "_cond_val"}, floor=2)
     from . import C15_kernels as _K
 
     _K.accumulator_reset(ctx, rule="R06.9")  # variance sum kernel: same loop-shape obligations as C15 / C05
     _K.full_extent(ctx, rule="R06.9")
     _K.zero_init(ctx, rule="R06.9")
+    from .C05 import kernel_sums
+
+    kernel_sums(ctx, rule="R06.9")  # the variance at a data point vanishes only if error[k] is the quadratic form v_k^T M v_k
+    from . import C15_bounds
+    from .C15 import inputs_not_written
+
+    C15_bounds.run(ctx, rule="R06.9", files=("krige/krigesum.pyx",), floor=10)
+    inputs_not_written(ctx, rule="R06.9", files=("krige/krigesum.pyx",))
+    _K.double_precision(ctx, rule="R06.9")  # single-precision accumulators / phases lose the exactness the property states
     _K.branch_free_krige_sums(ctx, rule="R06.9")
     from .C12 import swap_lint
     from .C18 import mirror_pipelines
